@@ -164,8 +164,8 @@ func sel(arr, idx Term) Term {
 	// (Array I E)
 	es := elemSortOf(arr.Sort)
 	// read-over-write on syntactically identical index
-	if strings.HasPrefix(arr.S, "(store ") {
-		if h, i, v, ok := splitStore(arr.S); ok {
+	if ea := expandDef(arr.S); strings.HasPrefix(ea, "(store ") {
+		if h, i, v, ok := splitStore(ea); ok {
 			if i == idx.S {
 				return Term{v, es}
 			}
@@ -178,6 +178,10 @@ func sel(arr, idx Term) Term {
 }
 
 func store(arr, idx, v Term) Term {
+	// store(store(H, i, x), i, v) = store(H, i, v)
+	if h, i, _, ok := splitStore(expandDef(arr.S)); ok && i == idx.S {
+		return app(arr.Sort, "store", Term{h, arr.Sort}, idx, v)
+	}
 	return app(arr.Sort, "store", arr, idx, v)
 }
 
